@@ -117,6 +117,38 @@ def main():
             elif rc == 2 and rc2 == 1:
                 print(f"[{prop}] plain view: {first[:200]}; the helper-inlined view of the same sources reports:")
                 rc, out, report = rc2, out2, report2
+            elif rc == 1 and rc2 == 2 and report2 is not None and len(report2.rules) > 1:
+                # the inlined view gave up in some rule, but the rules it completed before that count: a plain-view finding of a rule that the inlined view
+                # evaluated completely and found clean is an artefact of where the code sits (a helper), the obligation is discharged there
+                import contextlib
+                import io
+
+                from sa.rules import load_known
+
+                open_keys = {k["key"] for k in load_known().get("open", []) if k.get("property") == prop}
+                clean2 = {r.id for r in report2.rules[:-1] if not any(f.key not in open_keys for f in r.findings)}
+                dropped = 0
+                for r in report.rules:
+                    bad_ = [f for f in r.findings if f.key not in open_keys]
+                    if r.id in clean2 and bad_:
+                        dropped += len(bad_)
+                        r.findings = [f for f in r.findings if f.key in open_keys]
+                        r.discharged += len(bad_)
+                if dropped:
+                    plain_complete = "ANALYSIS-NOTE" not in out
+                    buf_ = io.StringIO()
+                    try:
+                        with contextlib.redirect_stdout(buf_):
+                            rc_new = mod.finish(report)
+                    except AnalysisError as e:
+                        rc_new = 2
+                        buf_.write(f"ANALYSIS-ERROR property={prop} {e}\n")
+                    head_ = f"[{prop}] {dropped} plain-view finding(s) belong to rules that the helper-inlined view of the same sources evaluated completely and found clean: discharged there\n"
+                    if rc_new == 0 and not plain_complete:
+                        note_ = next((l for l in out.splitlines() if l.startswith("ANALYSIS-NOTE")), "")
+                        rc, out = 2, head_ + f"ANALYSIS-ERROR property={prop} neither view could be analysed completely ({note_[:300]})\n"
+                    else:
+                        rc, out = rc_new, head_ + buf_.getvalue()
             elif rc == 1 and rc2 == 1:
                 # both views name violations: an obligation that fails on the plain view only because the code sits in a helper is discharged on the
                 # inlined view, so the inlined view's list is the one without such artefacts
